@@ -172,7 +172,11 @@ class Protocol:
             # acknowledges every held id of the fan-out, the current event's included
             return [(st._replace(acked=True, disposed=True, flags=st.flags | {"acklist"}), None)]
         if tag == "TIDY":
-            return [(st._replace(flags=st.flags | {"tidy"}), None)]
+            # the tear-down only does (and promises) something when the execution has a fan-out in progress: as a substitute for ending the
+            # execution it counts only under the membership test `execution_arn in self.branch_metadata`
+            from .util import enclosing_ifs
+            guarded = any(arm == "body" and "in self.branch_metadata" in norm(i.test) and "not in" not in norm(i.test) for i, arm in enclosing_ifs(self.mod, call, func.node))
+            return [(st._replace(flags=st.flags | ({"tidy"} if guarded else {"tidy_unguarded"})), None)]
         if tag in CONSEQUENCES:
             if st.acked and "ht_id" not in st.flags:
                 self._after_ack(func, call, st, tag, node)
